@@ -805,6 +805,15 @@ pub fn main(check: &dyn Check) -> ! {
     let mut agg = run_pool(check, &cfg, args.jobs, queue, cap_s);
     check.finish(&cfg, &mut agg);
 
+    // triage aid: VERIF_DUMP=<file> writes every violation as one JSON line
+    if let Ok(path) = std::env::var("VERIF_DUMP") {
+        let mut out = String::new();
+        for v in &agg.violations {
+            out.push_str(&v.to_json().to_string());
+            out.push('\n');
+        }
+        let _ = std::fs::write(path, out);
+    }
     // classify
     let mut known_seen: BTreeMap<String, (u64, String)> = BTreeMap::new();
     let mut unlisted: Vec<&Violation> = vec![];
